@@ -7,7 +7,7 @@
 EXTENDS SdoBlock, Json, IOUtils
 
 KInit(t) == [op |-> "none", bd |-> BdIdle, bu |-> BuIdle, acc |-> <<>>, committed |-> NoVal,
-             dist |-> FALSE, ci |-> 0, busy |-> FALSE, srvdead |-> FALSE]
+             dist |-> FALSE, ci |-> 0, busy |-> FALSE, srvdead |-> FALSE, noend |-> FALSE]
 KShow(st) == [op |-> st.op, bd |-> st.bd, bu |-> st.bu, acclen |-> Len(st.acc), dist |-> st.dist,
               busy |-> st.busy, srvdead |-> st.srvdead,
               committed |-> IF st.committed = NoVal THEN -1 ELSE Len(st.committed)]
@@ -124,13 +124,16 @@ UlSend(st, e, value) ==
         want == BuEnd(7 - LastLen(Len(value)), IF bu.crcOn THEN Crc16(value) ELSE 0)
     IN IF bu.ph # "end" THEN Bad(st, "HARNESS: end frame in the wrong phase")
        ELSE IF e.r # want THEN Bad(st, "HARNESS: reference server end frame malformed")
-       ELSE Good([st EXCEPT !.bu = [bu EXCEPT !.ph = "endsent"], !.dist = st.dist \/ e.how # "ok"])
+       ELSE Good([st EXCEPT !.bu = [bu EXCEPT !.ph = "endsent"], !.dist = st.dist \/ e.how # "ok",
+                            \* the delivered frame is not an end-of-block-upload frame at all
+                            !.noend = (e.how = "wrongend")])
 
 OnRet(st, e, data, value) ==
     IF ~st.busy THEN Bad(st, "return without call")
     ELSE IF st.op = "bdl"
       THEN IF st.committed = data THEN Good([st EXCEPT !.busy = FALSE])
            ELSE Bad(st, "block download returned normally but the server did not commit exactly the payload")
+    ELSE IF st.noend THEN Bad(st, "block upload returned normally although the server never sent a valid end frame")
     ELSE IF ~st.dist
       THEN IF st.bu.ph = "done" /\ e.data = value THEN Good([st EXCEPT !.busy = FALSE])
            ELSE Bad(st, "undisturbed block upload did not return exactly the server's value / did not close the transfer")
